@@ -66,7 +66,7 @@ Lemma vsub_vscal n : forall c (z x : Rvec), length z = n -> length x = n ->
   vsub (vscal c z) (vscal c x) = vscal c (vsub z x).
 Proof. vind n. unfv; cbn [map vmap2]; f_equal; [numR; ring | apply IHn; lia]. Qed.
 Lemma vlin_as_sub n : forall c s (x u : Rvec), length x = n -> length u = n ->
-  vlin c x (- (s * c)) u = vscal c (vsub x (vscal s u)).
+  vsub (vscal c x) (vscal (s * c) u) = vscal c (vsub x (vscal s u)).
 Proof. vind n. unfv; cbn [map vmap2]; f_equal; [numR; ring | apply IHn; lia]. Qed.
 
 (* ---- weighted inner product ---- *)
